@@ -55,6 +55,10 @@ def loop_ordinal(fr, node):
     return d.get(id(node), (getattr(node, "lineno", 0), getattr(node, "col_offset", 0)))
 
 
+import os as _os
+COVERAGE = set() if _os.environ.get("VERIF_COV") else None  # statements of repo functions executed by symbolic runs (tools/harness_coverage.py)
+
+
 class Machine(Interp):
     # ==================================================================================
     # expressions
@@ -369,6 +373,8 @@ class Machine(Interp):
     # statements
     def exec_block(self, stmts, fr):
         for s in stmts:
+            if COVERAGE is not None:
+                COVERAGE.add((fr.globals.get("__name__", "?"), getattr(s, "lineno", 0)))
             m = getattr(self, "s_" + type(s).__name__, None)
             if m is None:
                 raise Unsupported(f"statement {type(s).__name__}")
